@@ -1,7 +1,7 @@
 """C04 Servers stop cancelled work and cancellation cascades — E-Q / E-PROV / E-CFG (+ E-SHAPE source coverage)."""
 from engine.facts import CannotDecide, callee_is, path_matches
 from engine import cfg
-from .common import reachable_local_fns, norm_path, guarded_by_variant, result_of
+from .common import MAP_REMOVALS, reachable_local_fns, norm_path, guarded_by_variant, result_of
 from .server_common import Server
 
 EXTRA_CONFIGS = ('default', 'tokio1', 'serde1', 'serde-transport')   # feature configurations re-analysed in the thorough tier
@@ -50,19 +50,19 @@ def run(ctx):
     m = S.aborting
     key_field = T.data_field('delay_queue::Key')
     abort_field = T.data_field('AbortHandle')
-    rm = lambda x: any(P.is_call(r, 'HashMap::remove', 'HashMap::remove_entry') for r, _ in P.root(x))
+    rm = lambda x: any(P.is_call(r, *MAP_REMOVALS) for r, _ in P.root(x))
     n_ab = n_tm = 0
     for g in T.bodies(m):
         for bb, t in g.calls():
             if callee_is(t, 'AbortHandle::abort'):
                 n_ab += 1
                 rs = P.root(P.operand(g, t['args'][0], at=bb))
-                ok = bool(rs) and all(P.is_call(r, 'HashMap::remove', 'HashMap::remove_entry') and abort_field in P.fpath(p) for r, p in rs)
+                ok = bool(rs) and all(P.is_call(r, *MAP_REMOVALS) and abort_field in P.fpath(p) for r, p in rs)
                 R.ob('C04.abort', ('server table aborting removal', 'aborts the removed entry'), ok, 'the handle aborted is the one stored in the entry removed for the id', [g.loc(t)])
             if callee_is(t, 'DelayQueue::remove'):
                 n_tm += 1
                 rs = P.root(P.operand(g, t['args'][1], at=bb))
-                ok = bool(rs) and all(P.is_call(r, 'HashMap::remove', 'HashMap::remove_entry') and key_field in P.fpath(p) for r, p in rs)
+                ok = bool(rs) and all(P.is_call(r, *MAP_REMOVALS) and key_field in P.fpath(p) for r, p in rs)
                 R.ob('C04.abort', ('server table aborting removal', 'drops the removed entry\'s timer'), ok, 'the timer removed is the one armed for that entry', [g.loc(t)])
             if callee_is(t, 'AbortHandle::abort', 'DelayQueue::remove', 'DelayQueue::clear', 'HashMap::insert', 'HashMap::clear', 'util::Compact::compact'):
                 R.ob('C04.abort', ('server table aborting removal', 'miss has no effect', t['callee'].split('::')[-1]), bool(guarded_by_variant(F, P, g, bb, rm, ['Some', 'Continue'])),
